@@ -6,6 +6,7 @@ import (
 	"path/filepath"
 	"strconv"
 	"strings"
+	"sync"
 	"testing"
 	"unicode/utf8"
 
@@ -303,6 +304,12 @@ func runC20(malformed bool) func(s C20Scenario) pbt.Outcome {
 		sdkSanct := map[string]sdkname.Name{}
 		var nonASCII, shortHash, fewerLevels, sameConcat bool
 		concatSeen := map[string]string{}
+		type resolved struct {
+			nm     NameSpec
+			island uint64
+			path   string
+		}
+		var seq []resolved // what the sequential pass resolved every name to
 
 		for _, nm := range names {
 			get := nm.get()
@@ -380,6 +387,7 @@ func runC20(malformed bool) func(s C20Scenario) pbt.Outcome {
 					return pbt.Failf("shape", "path %q of %s: component %q below root/<island>/ is not a hash folder", p, q(get), c)
 				}
 			}
+			seq = append(seq, resolved{nm, isk, p})
 			final := comps[len(comps)-1]
 			levels := len(comps) - 1
 			if levels > s.Depth {
@@ -457,6 +465,62 @@ func runC20(malformed bool) func(s C20Scenario) pbt.Outcome {
 			out.Classes = append(out.Classes, "malformed")
 			return out
 		}
+		// "pure functions of the name": resolving many names at the same moment from several
+		// goroutines (fresh objects, as every request of a client process builds them) gives what
+		// the sequential pass gave. Each goroutine walks the batch from its own offset.
+		if len(seq) >= 2 {
+			const workers = 8
+			rounds := 1 + 64/len(seq)
+			type bad struct {
+				r      resolved
+				what   string
+				gotIsl uint64
+				gotP   string
+			}
+			bads := make([]*bad, workers)
+			var start, done sync.WaitGroup
+			start.Add(1)
+			for w := 0; w < workers; w++ {
+				done.Add(1)
+				go func(w int) {
+					defer done.Done()
+					start.Wait()
+					for r := 0; r < rounds && bads[w] == nil; r++ {
+						for i := range seq {
+							x := seq[(i+w*len(seq)/workers)%len(seq)]
+							k := sdkname.New().Sanctuary(x.nm.S).Realm(x.nm.R).Swamp(x.nm.W)
+							a := appname.New().Sanctuary(x.nm.S).Realm(x.nm.R).Swamp(x.nm.W)
+							if v := k.GetIslandID(s.N); v != x.island {
+								bads[w] = &bad{r: x, what: "SDK GetIslandID", gotIsl: v}
+								break
+							}
+							if v := uint64(a.GetFolderNumber(uint16(s.N))); v != x.island {
+								bads[w] = &bad{r: x, what: "server GetFolderNumber", gotIsl: v}
+								break
+							}
+							if v := a.GetFullHashPath(s.Root, x.island, s.Depth, s.PerLevel); v != x.path {
+								bads[w] = &bad{r: x, what: "GetFullHashPath", gotP: v}
+								break
+							}
+						}
+					}
+				}(w)
+			}
+			start.Done()
+			done.Wait()
+			for _, b := range bads {
+				if b == nil {
+					continue
+				}
+				if b.gotP != "" {
+					return pbt.Failf("concurrent", "%s of %s evaluated while other goroutines resolve other names: %q, alone %q", b.what, q(b.r.nm.get()), b.gotP, b.r.path)
+				}
+				return pbt.Failf("concurrent", "%s(%d) of %s evaluated while other goroutines resolve other names: %d, alone %d", b.what, s.N, q(b.r.nm.get()), b.gotIsl, b.r.island)
+			}
+			c20Concurrent += workers * rounds * len(seq)
+			pbt.Extra("C20", "names_resolved_concurrently", c20Concurrent)
+			out.Classes = append(out.Classes, "concurrent-resolution")
+		}
 		c20NamesMain += len(names)
 		pbt.Extra("C20", "names_evaluated", c20NamesMain)
 		out.NonTrivial = nonASCII || s.Depth*cpl >= 14
@@ -488,6 +552,8 @@ func runC20(malformed bool) func(s C20Scenario) pbt.Outcome {
 		return out
 	}
 }
+
+var c20Concurrent int
 
 func c20FamCounts() []int {
 	if pbt.GetEnv().Tier == "thorough" {
